@@ -42,7 +42,11 @@ CONSTANTS MaxParams,     \* named parameters per signature
           Cxs,           \* subset of BOOLEAN: arguments written as compound expressions `h + k`
           Hosts,         \* subset of BOOLEAN: a site's own scope has a live local named like a local
                          \*   of the inlined body
-          Dups           \* subset of BOOLEAN: a site may repeat the call text of site 1
+          Dups,          \* subset of BOOLEAN: a site may repeat the call text of site 1
+          MaxRecv,       \* receivers of bound calls are attribute chains of 1..MaxRecv components
+          MaxPreviews,   \* requests computed and discarded before the performed request (Task = "sig")
+          PreviewKinds   \* subset of {"intro", "same"}: what is previewed (introduce-parameter / the very
+                         \*   request that is performed afterwards)
 
 PNames == <<"a", "b", "c">>
 XNames == {"x", "y"}          \* keyword names that no signature declares
@@ -110,7 +114,8 @@ Binding(sig, call) ==
                  ELSE {}),
    va  |-> IF sig.va THEN ExtraPos(sig, call) ELSE <<>>,
    kw  |-> { <<call.kws[j].k, call.kws[j].v>> :
-             j \in { j \in DOMAIN call.kws : call.kws[j].k \notin Declared(sig) } }]
+             j \in { j \in DOMAIN call.kws : call.kws[j].k \notin Declared(sig) } },
+   rc  |-> call.rc]       \* the object the implicit first parameter is bound to (end of the chain)
 
 \* parameters a call supplies itself (not left to the default)
 Supplied(sig, call) == { sig.ps[i].n : i \in { i \in DOMAIN sig.ps : How(sig, call, i) # "def" } }
@@ -120,8 +125,12 @@ Supplied(sig, call) == { sig.ps[i].n : i \in { i \in DOMAIN sig.ps : How(sig, ca
 \* names; the k-th supplied argument carries the value k
 InjSeqs(S, n) ==
   UNION { { s \in [1..k -> S] : \A i, j \in 1..k : i # j => s[i] # s[j] } : k \in 0..n }
+\* a bound call (method, classmethod) has a receiver expression; it is an attribute chain
+\* of rc components (obj / w2.o / w3.w.o), rc a function of the call shape so that all depths occur
+RecvDepth(n) == 1 + (n % MaxRecv)
 MkCall(np, ks) ==
-  [pos |-> [i \in 1..np |-> i],
+  [rc |-> RecvDepth(np + Len(ks)),
+   pos |-> [i \in 1..np |-> i],
    kws |-> [j \in 1..Len(ks) |-> [k |-> ks[j], v |-> np + j]]]
 KwUniverse(sig) == Declared(sig) \cup (IF sig.kw THEN XNames ELSE {})
 AllCalls(sig) ==
@@ -154,10 +163,11 @@ Recall(sig1, sig2, c, newname, newval, inl) ==
                       IF How(sig1, c, i) = "def"
                       THEN (IF name = inl THEN sig1.ps[i].d ELSE NoVal)
                       ELSE ValOf(sig1, c, i)]
-  IN Emit(sig2, want,
-          IF sig2.va THEN ExtraPos(sig1, c) ELSE <<>>,
-          SelectSeq(c.kws, LAMBDA e : e.k = KoName),      \* the keyword-only argument stays a keyword
-          IF sig2.kw THEN ExtraKws(sig1, c) ELSE <<>>)
+      e == Emit(sig2, want,
+                IF sig2.va THEN ExtraPos(sig1, c) ELSE <<>>,
+                SelectSeq(c.kws, LAMBDA x : x.k = KoName),      \* the keyword-only argument stays a keyword
+                IF sig2.kw THEN ExtraKws(sig1, c) ELSE <<>>)
+  IN [rc |-> c.rc, pos |-> e.pos, kws |-> e.kws]      \* the receiver is the whole chain, unchanged
 
 ---------------------------------------------------------------------------
 VARIABLES sig0,    \* signature before
@@ -166,6 +176,7 @@ VARIABLES sig0,    \* signature before
           exp,     \* [AllCalls(sig0) -> binding] what every site must bind (the property)
           expl,    \* [AllCalls(sig0) -> SUBSET names] parameters a site must pass itself
           chg,     \* sequence of changer requests applied
+          pre,     \* requests computed (get_changes) and discarded before the performed one
           \* ---- Task = "inline"
           sites,   \* sequence of call-site records
           opt,     \* [remove, only, cur] options of the inline request
@@ -181,9 +192,9 @@ VARIABLES sig0,    \* signature before
           todo,    \* sites still to be visited, in rope's visiting order
           defgone  \* definition removed
 
-vars == <<sig0, sig, calls, exp, expl, chg, sites, opt, shown, shownD, shownS, shownL, carry, stale, hostval, hostvalC, cache, todo, defgone>>
+vars == <<sig0, sig, calls, exp, expl, chg, pre, sites, opt, shown, shownD, shownS, shownL, carry, stale, hostval, hostvalC, cache, todo, defgone>>
 inlvars == <<sites, opt, shown, shownD, shownS, shownL, carry, stale, hostval, hostvalC, cache, todo, defgone>>
-sigvars == <<calls, exp, expl, chg>>
+sigvars == <<calls, exp, expl, chg, pre>>
 
 Changer(op, i, perm, auto, d, v) == [op |-> op, i |-> i, perm |-> perm, auto |-> auto, d |-> d, v |-> v]
 
@@ -197,7 +208,18 @@ Step(c, sig2, newname, newval, inl, exp2, expl2) ==
   /\ exp' = exp2
   /\ expl' = expl2
   /\ calls' = [c0 \in DOMAIN calls |-> Recall(sig, sig2, calls[c0], newname, newval, inl)]
-  /\ UNCHANGED <<sig0>>
+  /\ UNCHANGED <<sig0, pre>>
+  /\ UNCHANGED inlvars
+
+\* A request whose changes are computed and then thrown away (preview / cancel), before the
+\* request that is performed.  It must leave no trace: nothing but `pre` changes.
+Discard(kind) ==
+  /\ Task = "sig"
+  /\ chg = <<>>
+  /\ Len(pre) < MaxPreviews
+  /\ kind \in PreviewKinds
+  /\ pre' = Append(pre, kind)
+  /\ UNCHANGED <<sig0, sig, calls, exp, expl, chg>>
   /\ UNCHANGED inlvars
 
 Normalize ==
@@ -270,6 +292,7 @@ SigNext ==
   \/ RemoveKw
   \/ \E i \in 1..(MaxParams + 1) : InlineDefault(i)
   \/ Intro
+  \/ \E kind \in {"intro", "same"} : Discard(kind)
 
 ---------------------------------------------------------------------------
 (* Task = "inline": inlining the calls of a function (C04).                *)
@@ -381,6 +404,7 @@ InitSig ==
   /\ exp = [c \in AllCalls(sig0) |-> Binding(sig0, c)]
   /\ expl = [c \in AllCalls(sig0) |-> Supplied(sig0, c)]
   /\ chg = <<>>
+  /\ pre = <<>>
   /\ NoInline
 
 SiteSeqs(s) ==
@@ -390,7 +414,7 @@ InitInline ==
   /\ Task = "inline"
   /\ sig0 \in InlineSigs
   /\ sig = sig0
-  /\ calls = <<>> /\ exp = <<>> /\ expl = <<>> /\ chg = <<>>
+  /\ calls = <<>> /\ exp = <<>> /\ expl = <<>> /\ chg = <<>> /\ pre = <<>>
   /\ sites \in SiteSeqs(sig0)
   /\ \A i, j \in DOMAIN sites : (i < j) => sites[i].m <= sites[j].m    \* numbered module by module
   /\ ~sites[1].dup
@@ -433,6 +457,12 @@ SurvivorsKeep ==
       /\ \A e \in b0.par : (e[1] \in Declared(sig)) => e \in b1.par
       /\ sig.va => b1.va = b0.va
       /\ sig.kw => b1.kw = b0.kw
+      /\ b1.rc = b0.rc                 \* the implicit first parameter is still the same object
+\* whatever was previewed and discarded, until a request is performed the program is the original
+DiscardedLeavesNoTrace ==
+  (Task = "sig" /\ chg = <<>>) =>
+     /\ sig = sig0
+     /\ \A c0 \in DOMAIN calls : calls[c0] = c0 /\ exp[c0] = Binding(sig0, c0)
 
 (* Invariants, Task = "inline" *)
 \* each visited site shows the binding of its own call, whatever was visited before
